@@ -17,6 +17,24 @@ ASSUMPTIONS = [
 ]
 
 
+def check_module_light(tkey, devs):
+    """Stand-alone synth round trip only (used for the many pairs of the reduced menu)."""
+    import rv.api as rv
+
+    case = {"type": tkey, "devs": devs, "light": True}
+    mod = deviate.build(tkey, devs)
+    want = C.norm_module_for_compare(S.module(mod, in_project=False))
+    b1 = C.save(rv.Synth(mod))
+    try:
+        l1 = C.load_bytes(b1).module
+    except Exception as e:
+        return [C.viol("synth-unloadable", {"type": tkey, "exc": type(e).__name__}, {"error": repr(e)}, case)], C.h8(b1)
+    d = S.diff(want, S.module(l1, in_project=False))
+    if d:
+        return [C.viol("synth-roundtrip", {"type": tkey, "path": C.first_diff_key(d), "k": 2}, {"diff": S.diff_text(d)}, case)], C.h8(b1)
+    return [], C.h8(b1)
+
+
 def check_module(tkey, devs):
     """Returns (violations, digest of synth bytes)."""
     import rv.api as rv
@@ -81,6 +99,8 @@ def run_case(case):
         return failed_save_then_save(case["type"])[1]
     if case.get("empty_synth"):
         return empty_synth()
+    if case.get("light"):
+        return check_module_light(case["type"], case["devs"])[0]
     return check_module(case["type"], case["devs"])[0]
 
 
@@ -327,13 +347,15 @@ def _task(t):
     tkey, seed, mode, lo, hi = t
     r = C.new_result()
     devs = deviate.module_devs(tkey, seed, spikes="all" if mode == 1 else "few", opt8="all" if mode == 1 else "few")
-    if mode == 1:
+    if mode == 3:
+        combos = [list(pr) for pr in list(deviate.pairs(deviate.reduced_devs(tkey, seed)))[lo:hi]]
+    elif mode == 1:
         combos = ([[]] + [[d] for d in devs])[lo:hi]
     else:
         combos = [list(pr) for pr in list(deviate.pairs(devs, common_pairs=(tkey == 'Amplifier')))[lo:hi]]
     for c in combos:
         try:
-            vs, dg = check_module(tkey, c)
+            vs, dg = check_module_light(tkey, c) if mode == 3 else check_module(tkey, c)
         except Exception as e:
             vs, dg = [C.viol("deviation-rejected", {"type": tkey, "exc": type(e).__name__,
                                                            "rejected": rejected_dev(tkey, c)},
@@ -359,6 +381,12 @@ def run(ctx):
         n = len(deviate.module_devs(k, ctx.seed)) + 1
         for lo in range(0, n, 60):
             tasks.append((k, ctx.seed, 1, lo, min(n, lo + 60)))
+    nred = 0
+    for k in deviate.type_keys():
+        n = sum(1 for _ in deviate.pairs(deviate.reduced_devs(k, ctx.seed)))
+        nred += n
+        for lo in range(0, n, 400):
+            tasks.append((k, ctx.seed, 3, lo, min(n, lo + 400)))
     npairs = 0
     if ctx.thorough:
         for k in deviate.type_keys():
@@ -374,13 +402,13 @@ def run(ctx):
     return {
         "evaluations": agg.evals,
         "distinct_nontrivial": max(0, len(agg.digests) - 1),
-        "rule": "module types x {default, every single deviation" + (", every compatible pair" if ctx.thorough else "")
+        "rule": "module types x {default, every single deviation, every pair of the reduced boundary menu" + (", every compatible pair of the full menu" if ctx.thorough else "")
                 + "}; each object through Synth write/read, Module.clone() and Project write/read; distinct_nontrivial = "
                   "number of distinct written byte images (synth+project) minus the default object's",
         "exhaustive": True,
         "k": 2 if ctx.thorough else 1,
         "types": len(deviate.type_keys()),
-        "pairs": npairs, "history_independence_saves": agg.counters.get("history_independence_saves", 0),
+        "pairs": npairs, "pairs_of_reduced_menu": nred, "history_independence_saves": agg.counters.get("history_independence_saves", 0),
         "resave_after_inplace_edit": agg.counters.get("resave_after_edit", 0), "failed_save_plans": agg.counters.get("failed_save_plans", 0),
         "samples": agg.samples,
     }
